@@ -530,6 +530,7 @@ object_t* load_object (const char *mudlib_filename, const char *pre_text) {
   
   ob->prog = prog;
   ob->flags |= O_WILL_RESET;	/* must be before reset is first called */
+  ob->uid = add_uid ("NONAME");	/* never NULL once the object can be found; see give_uid_to_object() */
   ob->next_all = obj_list;
   obj_list = ob;
 
